@@ -89,7 +89,7 @@ func c02uSel(g *Gen, w string, i int, key string) {
 	}
 	g.Do("bitmap.select32single", L(w, Int(i)), key)
 	c02uSelN++
-	if g.Thorough || c02uSelN%4 == 0 {
+	if c02uSelN%4 == 0 {
 		g.Do("bitmap.select32single/Select32", L(w, Int(i)), key)
 	}
 }
@@ -201,6 +201,7 @@ func c02uPopClass(n int) int {
 }
 
 func genC02u(g *Gen) {
+	genC02uSession(g)
 	// (U0) the byte table itself, row by row: all 256 rows x 8 entries
 	for b := 0; b < 256; b++ {
 		key := ""
@@ -221,7 +222,7 @@ func genC02u(g *Gen) {
 			hole := ^(uint64(0xff) << sh)
 			// quick tier: only the k's inside the byte and one either side of it
 			around := func(w uint64) []int {
-				if g.Thorough {
+				if g.Thorough && (b+pos)%5 == 0 {
 					return nil
 				}
 				below := bits.OnesCount64(w & (1<<sh - 1))
@@ -242,7 +243,7 @@ func genC02u(g *Gen) {
 	}
 	g.Exhaust = append(g.Exhaust, "indexSelectU64 / selectU64Indexed: all 256 byte values at all 8 byte positions of an otherwise empty word x all k")
 	if g.Thorough {
-		g.Exhaust = append(g.Exhaust, "indexSelectU64 / selectU64Indexed: all 256 byte values at all 8 byte positions of an otherwise all-ones word x all k")
+		g.Exhaust = append(g.Exhaust, "indexSelectU64: all 256 byte values at all 8 byte positions of an otherwise all-ones word (selectU64Indexed x the k's inside that byte and one either side; x all k for a fifth of them)")
 	}
 
 	// (U2) all words with 1 or 2 bits x all k
@@ -292,7 +293,7 @@ func genC02u(g *Gen) {
 	g.Exhaust = append(g.Exhaust, "indexSelectU64: all 256 words whose bytes are each 00 or ff (selectU64Indexed at every byte edge)")
 
 	// (U5) random words of every density, x all k
-	nr := g.N(12, 600)
+	nr := g.N(12, 120)
 	for d := 0; d < 9; d++ {
 		for q := 0; q < nr; q++ {
 			var w uint64
@@ -336,7 +337,7 @@ func genC02u(g *Gen) {
 	for n := 0; n <= 3; n++ {
 		c02uSentinels(g, make([]uint64, n))
 	}
-	for q := 0; q < g.N(60, 1500); q++ {
+	for q := 0; q < g.N(60, 600); q++ {
 		n := g.R.Range(1, 8)
 		ws := make([]uint64, n)
 		for i := range ws {
@@ -360,5 +361,102 @@ func genC02u(g *Gen) {
 			}
 		}
 		c02uSentinels(g, ws)
+	}
+}
+
+// ---- session on ONE held word buffer (seeded change C02-c02c-m1) ----
+
+func init() {
+	// [ws, steps]: step [0, i] = Select32R64(buf, current indexes, i); step [1, k, x] = buf[k] = x IN PLACE, then
+	// IndexSelect32R64(buf) again.  The buffer is the same backing array for the whole session.
+	Exec["bitmap.Select32R64/session"] = func(a []V) string {
+		buf := a[0].U64s()
+		sidx, ridx := bitmap.IndexSelect32R64(buf)
+		var out []string
+		for _, st := range a[1].L {
+			switch st.L[0].Int() {
+			case 0:
+				x, y := bitmap.Select32R64(buf, sidx, ridx, st.L[1].I32())
+				out = append(out, L(I32(x), I32(y)))
+			default:
+				buf[st.L[1].Int()] = st.L[2].U64()
+				sidx, ridx = bitmap.IndexSelect32R64(buf)
+				out = append(out, "0")
+			}
+		}
+		return L(out...)
+	}
+}
+
+// genC02uSession: query i where the next 1-bit lies in a LATER word, then move that next 1-bit to another word in
+// place (or overwrite the whole buffer with a new bitmap), re-index, query exactly i+1 with nothing in between; several
+// rounds per session.  A result remembered per (buffer address, length, i+1) is stale at that point.
+func genC02uSession(g *Gen) {
+	for q := 0; q < g.N(250, 2500); q++ {
+		n := g.R.Range(2, 9)
+		ws := make([]uint64, n)
+		for i := range ws {
+			switch g.R.Intn(3) {
+			case 0:
+				ws[i] = 1 << uint(g.R.Intn(64))
+			case 1:
+				ws[i] = 1<<uint(g.R.Intn(64)) | 1<<uint(g.R.Intn(64)) | 1<<uint(g.R.Intn(64))
+			}
+		}
+		ws[0] |= 1 << uint(g.R.Intn(64))
+		ws[n-1] |= 1 << uint(g.R.Intn(64))
+		start := U64s(ws)
+		var steps []string
+		moved, whole := 0, 0
+		for round := 0; round < 4; round++ {
+			os := c02Ones(ws)
+			// the i's whose next 1-bit is in a later word
+			var cand []int
+			for i := 0; i+1 < len(os); i++ {
+				if os[i+1]>>6 > os[i]>>6 {
+					cand = append(cand, i)
+				}
+			}
+			if len(cand) == 0 {
+				break
+			}
+			i := cand[g.R.Intn(len(cand))]
+			steps = append(steps, L("0", Int(i)))
+			W := os[i+1] >> 6
+			if g.R.Intn(4) == 0 {
+				// the buffer is reused for a whole new bitmap with at least i+2 1-bits
+				for k := range ws {
+					ws[k] = g.R.U64()
+					if k == W {
+						ws[k] = 0
+					}
+					steps = append(steps, L("1", Int(k), U(ws[k])))
+				}
+				whole++
+			} else {
+				// move the 1-bits of word W into another word after the word of the i-th 1-bit (or before it)
+				old := ws[W]
+				ws[W] = 0
+				steps = append(steps, L("1", Int(W), U(0)))
+				W2 := g.R.Intn(n)
+				for W2 == W {
+					W2 = g.R.Intn(n)
+				}
+				ws[W2] |= old | 1<<uint(g.R.Intn(64))
+				steps = append(steps, L("1", Int(W2), U(ws[W2])))
+				moved++
+			}
+			if len(c02Ones(ws)) > i+1 {
+				steps = append(steps, L("0", Int(i+1)))
+			}
+			if g.R.Intn(3) == 0 && len(c02Ones(ws)) > 0 {
+				steps = append(steps, L("0", Int(g.R.Intn(len(c02Ones(ws))))))
+			}
+		}
+		if len(steps) == 0 {
+			continue
+		}
+		g.Stat("session-held-buffer")
+		g.Do("bitmap.Select32R64/session", L(start, L(steps...)), fmt.Sprintf("session/nw%d/moved%d/whole%d", c02Cap(n, 6), c02Cap(moved, 3), c02Cap(whole, 2)))
 	}
 }
